@@ -735,6 +735,7 @@ func init() {
 				}
 			}
 		}
+		out = append(out, Inst{Pkg: "knxnet", Fn: "HarnessC16Origin", Note: "UDP receiver bound to one peer: sender host and port symbolic"})
 		out = append(out, Inst{Pkg: "knxnet", Fn: "HarnessC16ConcurrentSend", Args: []int64{2}, Note: "two concurrent senders, every interleaving around Write"})
 		if thorough {
 			out = append(out, Inst{Pkg: "knxnet", Fn: "HarnessC16ConcurrentSend", Args: []int64{3}, Ctx: 3})
@@ -753,7 +754,7 @@ func init() {
 		NoNative: true,
 		Quick:    func(l *loaded) []Inst { return c16(false) },
 		Thorough: func(l *loaded) []Inst { return c16(true) },
-		Covers:   []string{"C16.tcp.end", "C16.tcpbad.end", "C16.udp.end", "C16.hostinfo.nat", "C16.hostinfo.local", "C16.send.concurrent.end", "C16.close.end"},
+		Covers:   []string{"C16.tcp.end", "C16.tcpbad.end", "C16.udp.end", "C16.hostinfo.nat", "C16.hostinfo.local", "C16.send.concurrent.end", "C16.close.end", "C16.origin.accepted", "C16.origin.dropped"},
 		Bounds:   "real serveTCPSocket (with the real bufio.Reader and io.ReadFull) on streams of 1..2 (thorough 3) concatenated frames of four service types with symbolic field values, the Read stub returning: every placement of up to 2 (3) cut points, 1-byte dribble, or everything at once, then EOF; a frame with arbitrary body followed by a good one; a header announcing total length 0..5 (symbolic); real serveUDPSocket on 1..2 (3) datagrams, optionally preceded by an arbitrary symbolic datagram of 1..12 bytes into the reused 1024-byte buffer; Tunnel.hostInfo through requestConn for UDP/TCP/other sockets with and without SendLocalAddress; 2 (thorough 3) goroutines sending different frames through one TunnelSocket whose Write is a scheduling point",
 		Outside:  "50-frame streams (the receiver keeps no state between frames other than bufio's buffer); more than 3 cut points at once; more than 2 (thorough 3) concurrent senders; an application that never reads again after Close (a receiver blocked on an undelivered frame ends only when that frame is read; decided here: Close with 0..2 decoded frames pending and a reader that drains); kernel sockets, Dial*/Listen*, address parsing inside HostInfoFromAddress (redirected to an environment function)",
 		Assume:   []string{"(*net.TCPConn).Read / (*net.UDPConn).ReadFromUDP are engine stubs obeying the io.Reader contract with nondeterministic segment sizes"},
@@ -763,6 +764,7 @@ func init() {
 		for k := int64(0); k <= maxK; k++ {
 			out = append(out, Inst{Pkg: "knx", Fn: "HarnessC20Describe", Args: []int64{k}}, Inst{Pkg: "knx", Fn: "HarnessC20Discover", Args: []int64{k}})
 		}
+		out = append(out, Inst{Pkg: "knxnet", Fn: "HarnessC16Origin", Note: "only datagrams from the queried address and port surface"})
 		// "malformed frames first": the UDP receiver behind both calls keeps delivering after a bad datagram
 		for _, L := range []int64{6, 8, 10} {
 			out = append(out, Inst{Pkg: "knxnet", Fn: "HarnessC16UDP", Args: []int64{1, 3, L}, Note: "UDP receiver: arbitrary datagram first"})
@@ -776,7 +778,7 @@ func init() {
 		Thorough: func(l *loaded) []Inst { return c20(5) },
 		Covers:   []string{"C20.describe.answered", "C20.describe.timeout", "C20.discover.end"},
 		Bounds:   "real DescribeTunnel / DiscoverOnInterface (with the real TunnelSocket/RouterSocket methods) against an environment that offers 0..3 (thorough 5) frames, each a description response, a search response or another frame, each after a delay of 0, 2 or 4 s on the virtual clock (timeout 5 s), every interleaving of offer and timeout; one request written, carrying the host info of the socket's local address; socket closed exactly once",
-		Outside:  "real sockets (Dial/Listen are redirected to environment functions), origin filtering by serveUDPSocket, malformed frames (dropped by the receiver: C01/C16), scheduling slack (virtual time advances only when no goroutine can move)",
+		Outside:  "real sockets (Dial/Listen are redirected to environment functions), scheduling slack (virtual time advances only when no goroutine can move)",
 	})
 
 	c05 := func(thorough bool) []Inst {
